@@ -180,27 +180,40 @@ func worker(c *mon.Ctx) {
 		"max_simultaneous_lz4_compressions_of_more_than_64KiB": st.bigMax, "wall_s": round3(time.Since(tBig).Seconds()),
 	}
 	c.Max("max_overlap_big_lz4_compressions", int64(st.bigMax))
+	largeRounds := c.Pick(10, 100)
+	if raceEnabled {
+		largeRounds = c.Pick(1, 10)
+	}
+	tLarge := time.Now()
+	largeInfo := snappyLargePhase(c, label, largeRounds)
+	largeInfo["wall_s"] = round3(time.Since(tLarge).Seconds())
 	c.Eval(int(st.n))
 	var globalMax int32
 	noOverlap := []string{}
 	for i, sh := range sharedList {
 		c.Count("calls_"+sh.name, st.calls[i])
 		c.Max("max_overlap_"+sh.name, int64(st.maxOv[i]))
-		if i < idBigLz4c && st.maxOv[i] > globalMax { // the big-input phase has its own requirement
+		if !ownRequirement(i) && i < idBigLz4c && st.maxOv[i] > globalMax { // the big-input phase has its own requirement
 			globalMax = st.maxOv[i]
 		}
-		if st.maxOv[i] < 2 && i < idColdUdt { // the cold-start phase has its own counter and requirement
+		if st.maxOv[i] < 2 && !ownRequirement(i) { // the cold-start phase has its own counter and requirement
 			noOverlap = append(noOverlap, sh.name)
 		}
 	}
 	c.Count("mismatches", st.bad)
 	c.Set("child_"+label, map[string]interface{}{
-		"race_build": raceEnabled, "gomaxprocs": runtime.GOMAXPROCS(0), "shared_codecs": len(sharedList), "big_input_phase": bigInfo, "cold_start_phase": coldInfo,
+		"race_build": raceEnabled, "gomaxprocs": runtime.GOMAXPROCS(0), "shared_codecs": len(sharedList), "big_input_phase": bigInfo, "cold_start_phase": coldInfo, "snappy_large_body_phase": largeInfo,
 		"calls_per_goroutine_round_avg": ncalls / maxGoroutines, "sequential_calls": seqTotal, "sequential_results_that_are_errors": seqErrors,
 		"sequential_not_reproducible": unstable, "concurrent_calls": st.n, "mismatches": st.bad,
 		"max_overlap_any_codec": globalMax, "codecs_never_overlapped": noOverlap, "per_M": perMInfo,
 		"phase1_wall_s": round3(tSeq.Seconds()), "wall_s": round3(time.Since(t0).Seconds()), "overlap_counter": counterKind,
 	})
+}
+
+// ownRequirement: shared-codec entries of the cold-start and snappy large-body phases, which have their own
+// overlap counters and requirements (init order of the files does not matter here).
+func ownRequirement(i int) bool {
+	return i == idColdUdt || i == idColdMap || i == idColdTuple || i == idColdFresh || i == idLargeSnappy
 }
 
 func round3(f float64) float64 { return float64(int64(f*1000)) / 1000 }
@@ -339,6 +352,9 @@ func supervise(c *mon.Ctx) {
 				Big        struct {
 					Max int32 `json:"max_simultaneous_lz4_compressions_of_more_than_64KiB"`
 				} `json:"big_input_phase"`
+				Large struct {
+					Max int32 `json:"max_simultaneous_calls"`
+				} `json:"snappy_large_body_phase"`
 				Cold struct {
 					Max int32 `json:"max_simultaneous_cold_calls"`
 				} `json:"cold_start_phase"`
@@ -357,6 +373,10 @@ func supervise(c *mon.Ctx) {
 			if info.Cold.Max < 2 {
 				exercised = false
 				notExercised = append(notExercised, ch.label+"(cold-start phase: never two cold calls at once)")
+			}
+			if info.Large.Max < 2 {
+				exercised = false
+				notExercised = append(notExercised, ch.label+"(snappy large-body phase: never two calls at once)")
 			}
 			if info.Big.Max < 2 {
 				exercised = false
@@ -415,7 +435,7 @@ func supervise(c *mon.Ctx) {
 	c.Set("goroutine_counts", goroutineCounts)
 
 	for i, sh := range sharedList {
-		if i < idColdUdt && c.Counter("max_overlap_"+sh.name) < 2 {
+		if !ownRequirement(i) && c.Counter("max_overlap_"+sh.name) < 2 {
 			c.Inconclusive("never-two-calls-at-once/" + sh.name)
 		}
 	}
